@@ -96,7 +96,7 @@ pub fn c14_c15_pool(m: &mut Mon, ctx: &StepCtx, stats: &mut Stats, out: &mut Vec
                     viol(out, "C14", "claim_keeps_only_fraction", ctx.idx, "reward.ClaimRewards:fraction", format!("{} still has pending {} after the claim", signer, h.pending_rewards));
                 }
             }
-        } else if !ctx.abort_injected {
+        } else if !ctx.abort_injected && !ctx.out.map(|o| o.err_kind == Some(ErrKind::Chain) && o.err_at == Some(0)).unwrap_or(false) {
             if n >= 1 {
                 let why = ctx.out.and_then(|o| o.err.clone()).unwrap_or_default();
                 // a recipient the chain's address validation rejects is a legitimate failure
